@@ -415,7 +415,9 @@ impl<T: Eq + Hash> FrequentItemsSketch<T> {
     where
         T: Clone, // for self.hash_map.active_keys()
     {
-        if self.is_empty() {
+        // A purge can remove every counter while the sketch still carries stream weight and
+        // offset: only a sketch that has seen no weight at all is written in the empty form.
+        if self.stream_weight == 0 {
             let mut bytes = SketchBytes::with_capacity(8);
             bytes.write_u8(PREAMBLE_LONGS_EMPTY);
             bytes.write_u8(SERIAL_VERSION);
